@@ -121,9 +121,17 @@ func driveOps(c *Ctx) error {
 		}
 		rs := collect(reps*2, func(int) []cty.Value { return a0 })
 		rr := collect(reps, func(i int) []cty.Value { return concretizeArgs(aj, i) })
+		// mixed representations: every operand in a different one
+		rm := collect(reps, func(i int) []cty.Value {
+			out := make([]cty.Value, len(aj))
+			for k := range aj {
+				out[k] = Concretize(asJ(aj[k]), i+k+1)
+			}
+			return out
+		})
 		pa0 := projectArgs(a0)
 		ia := digestOf(pa0)
-		ev := J{"ev": "call", "api": api, "x": x, "a": pa0, "r": run(api, a0, x), "rs": rs, "rr": rr}
+		ev := J{"ev": "call", "api": api, "x": x, "a": pa0, "r": run(api, a0, x), "rs": rs, "rr": rr, "rm": rm}
 		ev["ia"], ev["ia2"] = ia, digestOf(projectArgs(a0))
 		// per representation: the largest mantissa precision among number operands, and the outcome
 		allNum := len(a0) > 0
